@@ -118,12 +118,16 @@ func encode(c *runner.Ctx, encoder string, d *work.Dec) *work.Enc {
 }
 
 var digits = regexp.MustCompile(`[0-9]+`)
+var decodePrefix = regexp.MustCompile(`decode .{4} pos [0-9]+: `)
 
 func errClass(err error) string {
 	if err == nil {
 		return "panic"
 	}
-	s := digits.ReplaceAllString(err.Error(), "N")
+	// the chain of "decode <type> pos <n>: " prefixes names the path to the
+	// failing box, which varies per input: keep the innermost message
+	s := decodePrefix.ReplaceAllString(err.Error(), "")
+	s = digits.ReplaceAllString(s, "N")
 	if len(s) > 70 {
 		s = s[:70]
 	}
